@@ -117,12 +117,27 @@ func checkString(s string) evid.Outcome {
 	want, accept := model.ParseRef(s)
 	got, err := parser.Parse(s)
 	out := evid.Outcome{}
+	if model.AcceptsDoc(s) != accept {
+		// the README spells the terminal classes twice and not alike ("$" in an
+		// identifier, "~ @ ! & ' ; % =" inside a regex value): such a string may
+		// be accepted or rejected; it must be handled cleanly, and when accepted
+		// its rendering must be a fixpoint
+		out.Classes = append(out.Classes, "alphabet-left-open")
+		if err == nil && got != nil {
+			r1 := got.String()
+			again, err2 := parser.Parse(r1)
+			if err2 != nil || again.String() != r1 {
+				return fail(out, "fixpoint", "%q is accepted and renders to %q, which does not parse back to itself (%v)", s, r1, err2)
+			}
+		}
+		return out
+	}
 	if accept {
 		out.NonTrivial = true
 		out.Classes = append(out.Classes, "accepted")
 	} else {
 		out.Classes = append(out.Classes, "rejected")
-		for i := 0; i < len(s) && !out.NonTrivial; i++ {
+		for i := 0; i < len(s) && len(s) <= 2000 && !out.NonTrivial; i++ { // (classification only; quadratic)
 			if model.Accepts(s[:i] + s[i+1:]) {
 				out.NonTrivial = true
 				out.Classes = append(out.Classes, "rejected-boundary")
@@ -167,10 +182,6 @@ func checkString(s string) evid.Outcome {
 	if again.String() != canon {
 		return fail(out, "fixpoint", "canonical %q renders to %q", canon, again.String())
 	}
-	// rendering is stable when asked twice (lazily cached)
-	if got.String() != canon {
-		return fail(out, "unstable", "String() of %q changed between calls", s)
-	}
 	// segment rendering adds up to the route rendering
 	var sb strings.Builder
 	for _, sg := range got.Segments {
@@ -196,6 +207,13 @@ func js(v interface{}) string {
 // ---- (a) exhaustive enumeration -------------------------------------------
 
 func enumerate(t *testing.T, name string, alphabet []byte, maxLen int) {
+	enumerateIn(t, name, "", "", alphabet, maxLen)
+}
+
+// enumerateIn checks every string prefix+w+suffix for w of length <= maxLen
+// over the alphabet: the frame puts the enumeration inside a lexer state that
+// short strings from the start symbol never reach.
+func enumerateIn(t *testing.T, name, prefix, suffix string, alphabet []byte, maxLen int) {
 	k, n := evid.Shard()
 	bulk := evid.NewBulk(name)
 	buf := make([]byte, 0, maxLen)
@@ -209,7 +227,7 @@ func enumerate(t *testing.T, name string, alphabet []byte, maxLen int) {
 		idx++
 		// shard by ordinal of the string; every string belongs to one shard
 		if int(idx%uint64(n)) == k {
-			s := string(buf)
+			s := prefix + string(buf) + suffix
 			evid.Inflight("string", mk(s))
 			out := evid.Protect(func() evid.Outcome { return checkString(s) })
 			evid.InflightDone()
@@ -232,7 +250,7 @@ func enumerate(t *testing.T, name string, alphabet []byte, maxLen int) {
 		}
 	}
 	rec(0)
-	bulk.Done(fmt.Sprintf("all strings of length <= %d over alphabet %q (shard %d of %d)", maxLen, string(alphabet), k, n))
+	bulk.Done(fmt.Sprintf("all strings %q + w + %q with w of length <= %d over alphabet %q (shard %d of %d)", prefix, suffix, maxLen, string(alphabet), k, n))
 }
 
 // tokenAlphabet has one representative per token class of the grammar plus
@@ -256,6 +274,42 @@ func TestExhaustiveStructure(t *testing.T) {
 		l = 9
 	}
 	enumerate(t, "exhaustive-structural-alphabet", structAlphabet, l)
+}
+
+// regexAlphabet: characters of the regex class, of the identifier class only,
+// of both, of neither, and the symbols that end or structure a value.
+var regexAlphabet = []byte{'a', '*', '[', '\\', ' ', '@', '%', '$', '/', '}', ',', ':', '{', '\t', '#'}
+
+// TestExhaustiveInsideValues enumerates inside a regex value, behind a regex
+// value and inside a parameter list - places the enumerations from the start
+// symbol are too short to reach (the shortest regex-valued route has 8
+// characters, the shortest two-parameter list 10).
+func TestExhaustiveInsideValues(t *testing.T) {
+	l := 3
+	if evid.Thorough() {
+		l = 4
+	}
+	enumerateIn(t, "exhaustive-inside-regex-value", "/{a:/", "/}", regexAlphabet, l)
+	enumerateIn(t, "exhaustive-behind-regex-value", "/{a: /b/", "", regexAlphabet, l)
+	enumerateIn(t, "exhaustive-inside-parameter-list", "/{a:b", "c:d}", regexAlphabet, l)
+	enumerateIn(t, "exhaustive-second-parameter", "/x{a: b,", "}/?y", regexAlphabet, l)
+}
+
+// TestLongInputs: parsing terminates and stays panic-free on inputs far longer
+// than any real route (runs of one token, deep runs of opening brackets,
+// thousands of segments).
+func TestLongInputs(t *testing.T) {
+	evid.Rapid(t, "string", 60, 600, func(t *rapid.T) {
+		unit := []string{"/a", "{", "}", "/{a}", "/{a: /b/}", "{a: ", "/?", ",", ":", "/{a: /[", "\\", " ", "/{a:b,c:d}", "{{", "/a{b}c"}[rapid.IntRange(0, 14).Draw(t, "unit")]
+		n := []int{1000, 5000, 20000, 100000}[rapid.IntRange(0, 3).Draw(t, "n")] / len(unit)
+		s := rapid.SampledFrom([]string{"", "/", "/x"}).Draw(t, "head") + strings.Repeat(unit, n) + rapid.SampledFrom([]string{"", "}", "/"}).Draw(t, "tail")
+		c := mk(s)
+		evid.Run(t, "string", c, func() evid.Outcome {
+			out := checkString(s)
+			out.Classes = append(out.Classes, "long-input")
+			return out
+		})
+	})
 }
 
 // ---- (b) random derivations -------------------------------------------------
